@@ -25,7 +25,7 @@ MetaOf(e) == [rel |-> e.rel,
               sk |-> IF e.rel = "scale" THEN e.sk ELSE 0,
               d |-> IF e.rel = "translate" THEN e.d ELSE <<0, 0>>,
               t |-> IF e.rel = "sym" THEN e.t ELSE 0,
-              big |-> e.big, touch |-> e.touch]
+              big |-> e.big, touch |-> e.touch, opaque |-> e.opaque, nedges |-> e.nedges]
 
 Init == r \in 1..Len(Sessions) /\ l = 1 /\ BInit
 
